@@ -2,10 +2,13 @@
    comprehensions / generator expressions / chained comparisons always; BoolOp / IfExp / lambda as
    soon as anything would have to be hoisted out of them (when accepted they are returned unchanged,
    nothing is hoisted and the counter does not move); a while statement as soon as its test needs a
-   hoisted statement. *)
+   hoisted statement; a try statement as soon as anything would have to be hoisted out of the type
+   expression of one of its except clauses (evaluated only while an exception propagates, after the
+   body and the clauses before it): when accepted, no statement is put in front of the try statement
+   and every except clause keeps the type expression it had. *)
 From Coq Require Import List String Bool.
 Import ListNotations.
-Require Import MV.Anf.Anf MV.Anf.AnfProofs.
+Require Import MV.Anf.Anf MV.Anf.AnfProofs MV.Anf.AnfRenameProofs.
 Local Open Scope string_scope.
 
 Theorem lazy_rejected :
@@ -13,9 +16,11 @@ Theorem lazy_rejected :
   /\ (forall cfg k lab cs n e' H n', triv_only k = true ->
         anf_expr cfg (EOp k lab cs) n = Some (e', H, n') -> H = [] /\ e' = EOp k lab cs /\ n' = n)
   /\ (forall cfg e b1 b2 n r, anf_stmt cfg (SWhile e b1 b2) n = Some r ->
-        exists e' n1, anf_named cfg KWhile "test" e n = Some (e', [], n1)).
+        exists e' n1, anf_named cfg KWhile "test" e n = Some (e', [], n1))
+  /\ (forall cfg b hs o f n ss n', anf_stmt cfg (STry b hs o f) n = Some (ss, n') ->
+        exists b' hs' o' f', ss = [STry b' hs' o' f'] /\ map htype hs' = map htype hs).
 Proof.
-  split; [reflexivity|]. split.
+  split; [reflexivity|]. split; [|split; [|exact try_except_types_kept]].
   - intros cfg k lab cs n e' H n' T E. pose proof (lazy_no_hoist _ _ _ _ _ _ _ _ T E) as N. subst H.
     destruct (no_hoist_unchanged _ _ _ _ _ E). auto.
   - intros cfg e b1 b2 n r E. simpl in E.
@@ -26,4 +31,12 @@ Example lazy_nonvacuous :
   anf_expr default_config (EOp KBoolOp "And" [("values", WPlain, EOp KCall "" [("func", WPlain, EName "a")]); ("values", WPlain, EName "b")]) 0 = None
   /\ anf_expr default_config (EOp KBoolOp "And" [("values", WPlain, EName "a"); ("values", WPlain, EName "b")]) 0 <> None.
 Proof. vm_compute. split; [reflexivity|discriminate]. Qed.
+(* non-vacuity: `try: pass / except g(h(b)): pass` is rejected, `try: pass / except g(b): pass` is accepted (unchanged)
+   under the default configuration *)
+Example lazy_try_nonvacuous :
+  let call (f : string) (a : expr) := EOp KCall "" [("func", WPlain, EName f); ("args", WPlain, a)] in
+  anf_stmt default_config (STry [SPass] [(Some (call "g" (call "h" (EName "b"))), None, [SPass])] [] []) 0 = None
+  /\ anf_stmt default_config (STry [SPass] [(Some (call "g" (EName "b")), None, [SPass])] [] []) 0
+     = Some ([STry [SPass] [(Some (call "g" (EName "b")), None, [SPass])] [] []], 0).
+Proof. vm_compute. split; reflexivity. Qed.
 Print Assumptions lazy_rejected.
